@@ -60,11 +60,16 @@ def main():
         return 0
     try:
         bad, msg = chk(rp)
-    except (ArithmeticError, ValueError, IndexError, KeyError) as e:
+    except Exception as e:  # noqa: BLE001
+        # an exception out of the real code where the clause promises a value reproduces the
+        # failure; one raised by the checker itself is a replay crash (exit 3, never a verdict)
         import traceback
         tb = traceback.extract_tb(e.__traceback__)
         inrepo = any("openskill" in (fr.filename or "") or "statistics" in (fr.filename or "") for fr in tb)
-        bad, msg = inrepo, f"the real code raised {type(e).__name__}: {e} (at {tb[-1].filename}:{tb[-1].lineno})"
+        if inrepo:
+            bad, msg = True, f"the real code raised {type(e).__name__}: {e} (at {tb[-1].filename}:{tb[-1].lineno})"
+        else:
+            bad, msg = False, f"the recipe could not be evaluated at the solver's model ({type(e).__name__}: {e})"
     if bad:
         print(f"REPRODUCED obligation={data['obligation']}: {msg}")
         return 1
@@ -86,4 +91,12 @@ def main():
 
 
 if __name__ == "__main__":
-    sys.exit(main())
+    try:
+        code = main()
+    except SystemExit:
+        raise
+    except BaseException:  # noqa: BLE001 - a crash of the replay is not a reproduction
+        import traceback
+        traceback.print_exc()
+        code = 3
+    sys.exit(code)
